@@ -617,6 +617,15 @@ class Processes:
             # yield them ONE at a time to ensure proper interleaving with message sending
             while '\n' in raw:
                 line, raw = raw.split('\n', 1)
+                if len(line) > self.MAX_COMMAND_SIZE:
+                    # whether the newline came with this read or an earlier one must not matter
+                    log.error(
+                        lazymsg('api.command.oversized process={pn} size={size}', pn=process_name, size=len(line)),
+                        'processes',
+                    )
+                    self._buffer.pop(process_name, None)
+                    self._handle_problem(process_name)
+                    return
                 line = line.rstrip()
 
                 if line.startswith('debug '):
@@ -629,6 +638,15 @@ class Processes:
                     )
                     # Queue command for processing
                     self._command_queue.append((process_name, formated(line)))
+
+            if len(raw) > self.MAX_COMMAND_SIZE:
+                log.error(
+                    lazymsg('api.command.oversized process={pn} size={size}', pn=process_name, size=len(raw)),
+                    'processes',
+                )
+                self._buffer.pop(process_name, None)
+                self._handle_problem(process_name)
+                return
 
             self._buffer[process_name] = raw
 
